@@ -20,7 +20,30 @@ M = [
  ("c04-lock-ge", "protocol/rules/chainedhotstuff.go", "if block2.View() > hs.bLock.View() {", "if block2.View() >= hs.bLock.View() && block2 != hs.bLock {", ["C04"]),
  ("c04-fast-drop-consecutive", "protocol/rules/fasthotstuff.go", "parent.Parent() == grandparent.Hash() && parent.View() == grandparent.View()+1 {", "parent.Parent() == grandparent.Hash() {", ["C04"]),
  ("c04-simple-lock", "protocol/rules/simplehotstuff.go", "if parent.View() < hs.locked.View() {", "if parent.View()+1 < hs.locked.View() {", ["C04"]),
+ ("c03-vote-twice", "protocol/consensus/voter.go", "if blockView <= v.lastVotedView {", "if blockView < v.lastVotedView {", ["C03"]),
+ ("c03-no-stopvoting", "protocol/synchronizer/synchronizer.go", "\tif s.voter.StopVoting(currentView) {", "\tif false && s.voter.StopVoting(currentView) {", ["C03"]),
+ ("c01-commit-ge", "protocol/consensus/committer.go", "if committedBlock.View() >= block.View() {", "if committedBlock.View() > block.View() {", ["C01", "C06"]),
+ ("c07-highqc-inverted", "protocol/viewstates.go", "if newBlock.View() <= s.highQC.View() {", "if newBlock.View() > s.highQC.View() && s.highQC.View() > 0 {", ["C07"]),
+ ("c07-skip-viewchange-event", "protocol/synchronizer/synchronizer.go", "\ts.eventLoop.AddEvent(hotstuff.ViewChangeEvent{View: newView, Timeout: timeout})", "\tif !timeout {\n\t\ts.eventLoop.AddEvent(hotstuff.ViewChangeEvent{View: newView, Timeout: timeout})\n\t}", ["C07"]),
+ ("c05-no-advance-on-current-view", "protocol/synchronizer/synchronizer.go", "\tif view < s.state.View() {\n\t\treturn\n\t}", "\tif view <= s.state.View() && timeout {\n\t\treturn\n\t}", ["C05"]),
+ ("c01-chained-no-safety", "protocol/rules/chainedhotstuff.go", "\t\tif hs.blockchain.Extends(block, hs.bLock) {\n\t\t\tsafe = true", "\t\tif true || hs.blockchain.Extends(block, hs.bLock) {\n\t\t\tsafe = true", ["C04", "C01"]),
+ ("c15-no-resignal", "internal/proto/clientpb/cmdcache.go", "\t\t\tif c.hasFullBatch() {\n\t\t\t\tc.signalReady()\n\t\t\t}\n\t\t\tc.mut.Unlock()\n\t\t\treturn batch, nil", "\t\t\tc.mut.Unlock()\n\t\t\treturn batch, nil", ["C15"]),
+ ("c15-dup-filter-lt", "internal/proto/clientpb/cmdcache.go", "return seqNum >= cmd.GetSequenceNumber()", "return seqNum > cmd.GetSequenceNumber()", ["C15"]),
+ ("c15-extract-keeps-prefix", "internal/proto/clientpb/cmdcache.go", "c.cache = c.cache[extracted:]", "c.cache = c.cache[len(batch.Commands):]", ["C15"]),
+ ("c14-delayed-dup", "core/eventloop/eventloop.go", "\tif events, ok = el.waitingEvents[t]; ok {\n\t\tdelete(el.waitingEvents, t)\n\t}", "\tevents, ok = el.waitingEvents[t]", ["C14"]),
+ ("c09-vm-quorum-off-by-one", "protocol/votingmachine/votingmachine.go", "if len(votes) < vm.config.QuorumSize() {", "if len(votes) < vm.config.QuorumSize()-1 {", ["C09", "C07"]),
+ ("c09-kauri-no-overlap-check", "protocol/comm/kauri/kauri.go", "\t\tcanMerge = !b.Participants().Contains(i)", "\t\tcanMerge = true || !b.Participants().Contains(i)", ["C09"]),
+ ("c12-drop-aggqc-view", "internal/proto/hotstuffpb/convert.go", "return &AggQC{QCs: pQCs, Sig: QuorumSignatureToProto(aggQC.Sig()), View: uint64(aggQC.View())}", "return &AggQC{QCs: pQCs, Sig: QuorumSignatureToProto(aggQC.Sig())}", ["C12"]),
+ ("c12-ts-truncate", "internal/proto/hotstuffpb/convert.go", "Timestamp: timestamppb.New(block.Timestamp()),", "Timestamp: timestamppb.New(block.Timestamp().Truncate(1000)),", ["C12"]),
+ ("c18-checkcommits-gt2", "twins/scenario.go", "if len(commitCount) != 1 {", "if len(commitCount) > 2 {", ["C18"]),
+ ("c06-exec-order", "protocol/consensus/committer.go", "\tcm.eventLoop.AddEvent(hotstuff.CommitEvent{Block: block})\n", "\tif block.View()%5 != 4 {\n\t\tcm.eventLoop.AddEvent(hotstuff.CommitEvent{Block: block})\n\t}\n", ["C06", "C01"]),
  ("c04-chained-drop-view", "protocol/rules/chainedhotstuff.go", "\t\tblock2.Parent() == block3.Hash() &&\n\t\tblock2.View() == block3.View()+1 {", "\t\tblock2.Parent() == block3.Hash() {", ["C04"]),
+]
+
+REVERTS = [
+ ("2961902", ["C14"]), ("3b96baf", ["C14"]), ("8b049e3", ["C08"]), ("1551696", ["C08"]), ("90b2f43", ["C08"]), ("b8d83d7", ["C08"]),
+ ("603c7aa", ["C02", "C07"]), ("57f5b13", ["C02", "C09"]), ("3f43552", ["C11", "C02"]), ("1641b68", ["C13"]), ("377663b", ["C18"]),
+ ("3f84678", ["C10"]), ("38a1e4f", ["C10"]), ("a23bdb5", ["C10"]), ("ac63bc9", ["C10"]), ("26ea053", ["C10"]), ("1f3eb0f", ["C09"]), ("3f1c6f2", ["C03"]),
 ]
 
 def sh(cmd, **kw):
@@ -42,6 +65,26 @@ def main():
             b = sh("cd /repo && GOFLAGS=-mod=mod GOPROXY=off go build ./...")
             if b.returncode != 0:
                 print(f"{name}: does not compile\n{b.stderr[:300]}"); continue
+            res = {}
+            for pr in props:
+                t = time.time()
+                c = sh(f"cd /verif && ./check {pr} quick")
+                res[pr] = (c.returncode, "VIOLATION" in c.stdout, round(time.time() - t, 1))
+            print(name, res, flush=True)
+            results.append((name, "ran", res))
+        finally:
+            sh("git -C /repo checkout -- .")
+    for commit, props in REVERTS:
+        name = "revert-" + commit
+        if sel and not any(x in name for x in sel):
+            continue
+        a = sh(f"cd /repo && git show {commit} | git apply -R")
+        if a.returncode != 0:
+            print(name, "cannot reverse-apply", a.stderr[:200]); results.append((name, "pattern", {})); sh("git -C /repo checkout -- ."); continue
+        try:
+            b = sh("cd /repo && GOFLAGS=-mod=mod GOPROXY=off go build ./...")
+            if b.returncode != 0:
+                print(f"{name}: does not compile"); continue
             res = {}
             for pr in props:
                 t = time.time()
